@@ -22,7 +22,7 @@ class AddResourceFactory(_TableSpec):
     qual = "_context.Context.add_resource_factory"
     properties = ("C03", "C13", "C18", "C02", "C04")
     param_types = {"factory_callback": ANY, "name": TSTR, "types": ANY, "description": ANY}
-    modifies = frozenset({"d_has", "d_get", "d_len", "g:ev_len", "g:ev_item", "g:q_len", "g:q_item", "g:warns", "g:owner"})
+    modifies = frozenset({"d_has", "d_get", "d_len", "g:ev_len", "g:ev_item", "g:q_len", "g:q_item", "g:warns", "g:q_attempts", "fld:source", "fld:topic", "fld:time", "g:owner"})
     ghost_C_ctor = "ResourceFactory"
 
     def requires(self, F):
